@@ -12,6 +12,10 @@
 //!                          exactly those options, re-opened, stored again with the same options
 //!                          -> rej-open | ok plug=<A|B|C|x per codec, - if none> mo=<hex> zj=<hex> z2=<hex> zt=<hex> re=<rej | ok zjr=.. z2r=.. ztr=..>
 //!   c13 cfg store=<kind> ; c13 op <mkgroup|mkarray|rmmeta|rmnode|stray|children|paths|objs|tree|exists> ...
+//!   c13 op mkdoc p=<path> key=<zarr.json|.zarray|.zgroup> text=<hex> [zattrs=<hex>]   a given metadata text stored at the node
+//!   c13 op cons p=<path>   Node::open + consolidate_metadata, set on the group, stored, re-opened (model: lean/ZarrsModel/Model/Consolidated.lean)
+//!                          -> err | array | nogroup | ok stored=<hex compact text of the group's metadata key> map=<hex compact ConsolidatedMetadata | ->
+//!   c13 build ...          ArrayBuilder / GroupBuilder setters (model: lean/ZarrsModel/Model/Builder.lean)
 use crate::c08::{make_store, DynStore, StoreCtx};
 use crate::util::*;
 use std::collections::BTreeMap;
@@ -202,6 +206,8 @@ pub fn exec_doc(line: &str) -> String {
         }
         "mut" => exec_mut(&m),
         "mopt" => exec_mopt(&m),
+        "build" => exec_build(&m),
+        "gbuild" => exec_gbuild(&m),
         "aopen" => {
             let sc = make_store("memory");
             let store: DynStore = sc.store.clone();
@@ -328,6 +334,24 @@ pub fn exec_op(ctx: &HCtx, verb: &str, m: &BTreeMap<String, String>) -> String {
                 let a = zarrs::node::node_exists(&store, &np).map(|b| b.to_string()).unwrap_or("err".into());
                 let b = zarrs::node::node_exists_listable(&store, &np).map(|b| b.to_string()).unwrap_or("err".into());
                 format!("val {} {}", a, b)
+            }
+            "mkdoc" => {
+                let r = store.set(&key(&mk(&m["key"])), unhex(&m["text"]).into());
+                if let Some(z) = m.get("zattrs") { let _ = store.set(&key(&mk(".zattrs")), unhex(z).into()); }
+                match r { Ok(()) => "ok".into(), Err(_) => "err".into() }
+            }
+            "cons" => {
+                // `Node::open` + `consolidate_metadata`, set on the group at the same path, stored and re-opened
+                let n = match Node::open(&store, &p) { Ok(n) => n, Err(_) => return "err".into() };
+                let map = match n.consolidate_metadata() { Some(x) => x, None => return "array".into() };
+                let mut g = match Group::open(store.clone(), &p) { Ok(g) => g, Err(_) => return "nogroup".into() };
+                g.set_consolidated_metadata(Some(zarrs::metadata::v3::group::ConsolidatedMetadata { metadata: map, ..Default::default() }));
+                if g.store_metadata().is_err() { return "err-store".into(); }
+                let mkey = if matches!(g.metadata(), GroupMetadata::V3(_)) { "zarr.json" } else { ".zgroup" };
+                let stored = compact(&store.get(&key(&mk(mkey))).unwrap().unwrap()).unwrap_or_default();
+                let h = match Group::open(store.clone(), &p) { Ok(h) => h, Err(_) => return format!("ok stored={} map=rej-reopen", hex(stored.as_bytes())) };
+                let map2 = match h.consolidated_metadata() { Some(c) => hex(serde_json::to_string(c).unwrap().as_bytes()), None => "-".to_string() };
+                format!("ok stored={} map={}", hex(stored.as_bytes()), map2)
             }
             "keys" => { let mut ks: Vec<String> = store.list().unwrap_or_default().iter().map(|k| k.as_str().to_string()).collect(); ks.sort(); format!("keys {}", show(ks)) }
             _ => "bad-op".into(),
@@ -824,6 +848,322 @@ fn generate_mopt(rng: &mut Rng, n: usize, out: &mut Vec<String>) {
     }
 }
 
+
+/// one hierarchy case block: `cfg`, a random sequence of operations, then the listings of every known path.
+/// With `docs` (an own random stream, so that the lines of the plain blocks stay as they were) the block also stores
+/// given metadata documents (`mkdoc`) and consolidates (`cons`); it then runs in a `MemoryStore`.
+fn gen_hier_block(rng: &mut Rng, thorough: bool, h: usize, mut docs: Option<&mut Rng>, out: &mut Vec<String>) {
+    let kind = if docs.is_some() { "memory" } else { match h % 5 { 0 => "fs", 1 => "os_mem", 2 => "od_mem", _ => "memory" } };
+    out.push(format!("c13 cfg store={}", kind));
+    let names = ["a", "b", "c", "g1", "__x", "zarr", "x.y", "t__2m"];
+    let mut paths: Vec<String> = vec!["/".to_string()];
+    let nops = rng.range(4, if thorough { 40 } else { 20 });
+    if let Some(r) = docs.as_deref_mut() {
+        // mostly a root group to consolidate into: plain, or a given document (possibly with consolidated metadata already)
+        match r.below(8) {
+            0 => {}
+            1 | 2 => { let v = !r.chance(1, 20); let t = gen_cons_group_doc(r, 1, v); out.push(format!("c13 op mkdoc p=/ key=zarr.json text={} g=1", hex(t.as_bytes()))); }
+            _ => out.push("c13 op mkgroup p=/ v=3".into()),
+        }
+    }
+    for _ in 0..nops {
+        let sel = rng.below(20);
+        let parent = rng.pick(&paths).clone();
+        let child = if parent == "/" { format!("/{}", rng.pick(&names)) } else { format!("{}/{}", parent, rng.pick(&names)) };
+        if let Some(r) = docs.as_deref_mut() {
+            // a given document at the child (or, rarely, at the parent itself), sometimes a consolidation in the middle
+            if r.chance(1, 3) {
+                let at = if r.chance(1, 8) { parent.clone() } else { child.clone() };
+                let l = gen_mkdoc(r, &at);
+                if l.contains("key=zarr.json") && l.contains(" g=1") && !paths.contains(&at) && at.matches('/').count() < 4 { paths.push(at.clone()); }
+                out.push(l);
+            }
+            if r.chance(1, 10) { out.push(format!("c13 op cons p={}", r.pick(&paths))); }
+        }
+        match sel {
+            0..=5 => { let p = if rng.chance(1, 6) { "/".to_string() } else { child.clone() }; out.push(format!("c13 op mkgroup p={} v={}", p, if rng.chance(1, 4) { 2 } else { 3 })); if !paths.contains(&p) && p.matches('/').count() < 4 { paths.push(p); } }
+            6..=8 => { out.push(format!("c13 op mkarray p={} v={}", child, if rng.chance(1, 4) { 2 } else { 3 })); }
+            9 => { out.push(format!("c13 op rmmeta p={}", rng.pick(&paths))); }
+            10 => { let p = rng.pick(&paths).clone(); if p != "/" { out.push(format!("c13 op rmnode p={}", p)); } }
+            11 => { out.push(format!("c13 op stray k={}/{}", child.trim_start_matches('/'), rng.pick(&["data.bin", "x/y", "s/0/0"]))); }
+            12 => { out.push(format!("c13 op children p={} rec={}", rng.pick(&paths), rng.below(2))); }
+            13 => { out.push(format!("c13 op paths p={}", rng.pick(&paths))); }
+            14 => { out.push(format!("c13 op objs p={}", rng.pick(&paths))); }
+            15 => { out.push(format!("c13 op exists p={}", if rng.chance(1, 2) { child } else { parent })); }
+            _ => { out.push(format!("c13 op tree p={}", rng.pick(&paths))); }
+        }
+    }
+    out.push("c13 op keys".into());
+    for p in &paths { out.push(format!("c13 op children p={} rec=1", p)); out.push(format!("c13 op paths p={}", p)); out.push(format!("c13 op objs p={}", p)); }
+    out.push("c13 op tree p=/".into());
+    if let Some(r) = docs.as_deref_mut() {
+        // consolidation: a random path first (its stored document then appears in the root's map), the root, the root
+        // again (its own consolidated metadata is not part of the map), and the listing afterwards
+        out.push(format!("c13 op cons p={}", r.pick(&paths)));
+        out.push("c13 op cons p=/".into());
+        if r.chance(1, 2) { out.push("c13 op cons p=/".into()); }
+        out.push("c13 op tree p=/".into());
+        out.push("c13 op keys".into());
+    }
+}
+
+/// a metadata document stored at a node: mostly valid V3/V2 array and group documents in their forms, rarely one
+/// that does not read (the listing then fails).  ` g=1` marks a V3 group document (the path can hold children).
+fn gen_mkdoc(r: &mut Rng, at: &str) -> String {
+    match r.below(16) {
+        0..=4 => { let v = !r.chance(1, 20); let t = gen_cons_group_doc(r, 1, v); format!("c13 op mkdoc p={} key=zarr.json text={} g=1", at, hex(t.as_bytes())) }
+        5..=8 => { let d = gen_array_doc(r); format!("c13 op mkdoc p={} key=zarr.json text={}", at, hex(d.text().as_bytes())) }
+        9..=11 => {
+            let t = if r.chance(1, 12) { r.pick(&[r#"{"zarr_format":2,"shape":[2],"chunks":[1],"dtype":[["a","<i4",null]],"compressor":null,"fill_value":0,"order":"C","filters":[]}"#,
+                r#"{"zarr_format":2,"shape":[2],"chunks":[1],"dtype":[["a","<i4",[2]],["b","|u1",[]]],"compressor":null,"fill_value":null,"order":"F","filters":[],"node_type":"array"}"#]).to_string() } else { gen_opts_v2_array_doc(r) };
+            let badz = if r.chance(1, 6) { "[1]" } else { r#"{"q":null}"# };
+            let z = if r.chance(1, 3) { format!(" zattrs={}", hex(r.pick(&["{}", r#"{"a":1}"#, r#"{"z":"é","a":[1,2,null]}"#, r#"{"_zarrs":1}"#, r#"{"b":{"c":"d"}}"#, badz]).as_bytes())) } else { String::new() };
+            format!("c13 op mkdoc p={} key=.zarray text={}{}", at, hex(t.as_bytes()), z)
+        }
+        12 | 13 => {
+            let g = gen_v2_group_doc_nodup(r);
+            let badz = if r.chance(1, 4) { "3" } else { r#"{"z":[]}"# };
+            let z = if r.chance(1, 3) { format!(" zattrs={}", hex(r.pick(&["{}", r#"{"a":1}"#, r#"{"k":{"b":[true]}}"#, badz]).as_bytes())) } else { String::new() };
+            format!("c13 op mkdoc p={} key=.zgroup text={}{}", at, hex(g.text().as_bytes()), z)
+        }
+        14 if r.chance(1, 4) => { let t = *r.pick(&[r#"{"zarr_format":2}"#, V2_ARRAY, "{}", "[]", r#"{"zarr_format":3,"node_type":"group","attributes":3}"#]); format!("c13 op mkdoc p={} key=zarr.json text={}", at, hex(t.as_bytes())) }
+        _ => { let t = format!(r#"{{"zarr_format":3,"node_type":"group","attributes":{}}}"#, rand_obj(r, 2, true)); format!("c13 op mkdoc p={} key=zarr.json text={} g=1", at, hex(t.as_bytes())) }
+    }
+}
+
+/// a V2 group document without a repeated key (a repeated key of a typed field is rejected by serde, the JSON model merges it)
+fn gen_v2_group_doc_nodup(r: &mut Rng) -> Doc {
+    loop {
+        let g = gen_v2_group_doc(r);
+        if !g.fields.iter().enumerate().any(|(i, f)| g.fields[..i].iter().any(|x| x.0 == f.0)) { return g; }
+    }
+}
+
+/// a node document for a consolidated map (valid unless `bad`): V3 group (possibly with its own consolidated
+/// metadata), V3 array, V2 array, V2 group
+fn gen_member_doc(r: &mut Rng, depth: u32, valid: bool) -> String {
+    match r.below(10) {
+        0..=2 => gen_cons_group_doc(r, depth, valid),
+        3..=5 => gen_array_doc(r).text(),
+        6 | 7 => { let mut t = gen_opts_v2_array_doc(r); if r.chance(1, 3) { t = format!("{},\"attributes\":{}}}", &t[..t.len() - 1], r.pick(&[r#"{"a":1}"#, r#"{"z":[1,{"q":null}]}"#])); if t.matches("\"attributes\"").count() > 1 { t = gen_opts_v2_array_doc(r); } } t }
+        8 => gen_v2_group_doc_nodup(r).text(),
+        _ => r.pick(&[r#"{"zarr_format":2}"#, r#"{"zarr_format":2,"shape":"x"}"#, r#"{"zarr_format":3,"node_type":"group"}"#,
+            r#"{"zarr_format":2,"shape":[2],"chunks":[1],"dtype":[["a","<i4",null]],"compressor":null,"fill_value":0,"order":"C","filters":[]}"#,
+            r#"{"node_type":"array","zarr_format":2,"shape":[2],"chunks":[1],"dtype":"|u1","compressor":null,"fill_value":0,"order":"C","filters":null,"dimension_separator":"."}"#,
+            r#"{"node_type":"group","zarr_format":2,"shape":[2],"chunks":[1],"dtype":"|u1","compressor":null,"fill_value":0,"order":"C","filters":null}"#]).to_string(),
+    }
+}
+
+/// the `consolidated_metadata` member in its forms; returns (text, whether it was built to be readable)
+fn gen_cons_member(r: &mut Rng, depth: u32, valid: bool) -> String {
+    let n = r.below(5) as usize;
+    let keys = ["a", "b", "a/b", "a/b/c", "zz", "", "é", "A", "c d", "x\"y", "b/arr", "/lead", "~"];
+    let mut used: Vec<&str> = vec![];
+    let mut kids: Vec<String> = vec![];
+    for _ in 0..n {
+        let k = *r.pick(&keys);
+        if used.contains(&k) { continue; }
+        used.push(k);
+        kids.push(format!("{}:{}", jstr(k), gen_member_doc(r, depth.saturating_sub(1), valid)));
+    }
+    let meta = format!("{{{}}}", kids.join(","));
+    let kind = if r.chance(1, 8) { "{\"inline\":null}" } else { "\"inline\"" };
+    match if valid { r.below(4) + 20 * r.below(2) } else { r.below(24) } {
+        0 => "null".to_string(),
+        1 => format!("[{},{},false]", meta, kind),
+        2 => format!("{{\"kind\":{},\"must_understand\":false,\"metadata\":{}}}", kind, meta),
+        3 => format!("{{\"metadata\":{},\"extra\":[1,2],\"kind\":{},\"must_understand\":false,\"zzz\":{{}}}}", meta, kind),
+        // not readable
+        4 => format!("{{\"metadata\":{},\"kind\":{},\"must_understand\":{}}}", meta, kind, r.pick(&["true", "0", "null", "\"false\""])),
+        5 => format!("{{\"metadata\":{},\"kind\":{},\"must_understand\":false}}", meta, r.pick(&["\"Inline\"", "\"external\"", "null", "{\"inline\":{}}", "{\"inline\":null,\"x\":null}", "[\"inline\"]", "{}"])),
+        6 => { let miss = r.below(3); format!("{{{}}}", [format!("\"metadata\":{}", meta), format!("\"kind\":{}", kind), "\"must_understand\":false".to_string()].iter().enumerate().filter(|(i, _)| *i as u64 != miss).map(|(_, x)| x.clone()).collect::<Vec<_>>().join(",")) }
+        7 => format!("{{\"metadata\":{},\"kind\":{},\"must_understand\":false}}", r.pick(&["null", "[]", "3", "{\"a\":3}", "{\"a\":{\"zarr_format\":3}}", "{\"a\":{\"zarr_format\":3,\"node_type\":\"array\"}}", "{\"a\":[]}", "{\"a\":{\"zarr_format\":3,\"node_type\":\"group\",\"consolidated_metadata\":{}}}"]), kind),
+        8 => r.pick(&["3", "\"inline\"", "{}", "[]", "true", "[{},\"inline\"]", "[{},\"inline\",false,1]", "[{},\"inline\",true]"]).to_string(),
+        _ => format!("{{\"metadata\":{},\"kind\":{},\"must_understand\":false}}", meta, kind),
+    }
+}
+
+/// a V3 group document with (usually) consolidated metadata, in shuffled key order half of the time
+fn gen_cons_group_doc(r: &mut Rng, depth: u32, valid: bool) -> String {
+    let mut f: Vec<(String, String)> = vec![("zarr_format".into(), "3".into()), ("node_type".into(), "\"group\"".into())];
+    if r.chance(1, 2) { f.push(("attributes".into(), if r.chance(1, 5) { "{}".to_string() } else { rand_obj(r, 2, true) })); }
+    if depth > 0 && r.chance(3, 4) { f.push(("consolidated_metadata".into(), gen_cons_member(r, depth, valid))); }
+    for _ in 0..r.below(3) {
+        let k = r.pick(&["extra", "zzz", "Aux", "b", "0", "metadata", "kind"]).to_string();
+        if f.iter().any(|x| x.0 == k) { continue; }
+        f.push((k, if r.chance(1, 12) { r.pick(&["1", "{\"a\":1}", "{\"must_understand\":true}"]).to_string() } else { format!("{{\"must_understand\":false,\"v\":{}}}", rand_value(r, 1)) }));
+    }
+    if r.chance(1, 2) { for i in (1..f.len()).rev() { let j = r.below(i as u64 + 1) as usize; f.swap(i, j); } }
+    format!("{{{}}}", f.iter().map(|(k, v)| format!("{}:{}", jstr(k), v)).collect::<Vec<_>>().join(","))
+}
+
+/// `gdoc` / `gopen` lines for group documents with consolidated metadata, and hierarchy blocks that consolidate
+fn generate_cons(rng: &mut Rng, thorough: bool, out: &mut Vec<String>) {
+    let n = if thorough { 4000 } else { 400 };
+    for _ in 0..n {
+        let t = gen_cons_group_doc(rng, 2, false);
+        out.push(format!("c13 gdoc text={}", hex(t.as_bytes())));
+        out.push(format!("c13 gopen text={}", hex(t.as_bytes())));
+    }
+    let nh = if thorough { 3000 } else { 320 };
+    let mut r2 = Rng::new(rng.next() ^ 0x5EED);
+    for h in 0..nh { gen_hier_block(rng, thorough, h, Some(&mut r2), out); }
+}
+
+
+// ---------------------------------------------------------------- builders (model: lean/ZarrsModel/Model/Builder.lean)
+
+/// `c13 build dt=<name> shape=<a,b|-> grid=<a,b|-> fill=<hex bytes> ops=<setter;setter;..|->`: `ArrayBuilder::new` followed by the
+/// setters in order, then `build` in a `MemoryStore`.  Setters: `shape:a,b` `dt:<name>` `grid:a,b` `fill:<hex>` `cke:<default|v2><sep>`
+/// `sep:<sep>` `a2a:<codec,..|->` `a2b:<codec>` `b2b:<codec,..|->` `attrs:<hex object>` `extra:<hex object>` `dims:<none|a,-,b>` `st`
+/// (codecs: `name` or `name~<hex configuration>`; `!name` is `name` registered under no plugin: a custom `Named*Codec` of gzip).
+/// Outcome: `err-grid` | `err-dims` | `err-fill` | `err-other` | `ok doc=<hex compact> re=<same|rej|hex> rb=<same|err|hex>` where `re` is the
+/// document of the array re-opened after `store_metadata` (without the `_zarrs` attribute) and `rb` the document of
+/// `array.builder().build()`.
+fn exec_build(m: &BTreeMap<String, String>) -> String {
+    use zarrs::array::codec::Codec;
+    use zarrs::array::{ArrayBuilder, ArrayCreateError, DataType, FillValue};
+    let dt_of = |n: &str| -> DataType { match n { "uint8" => DataType::UInt8, "int16" => DataType::Int16, "int32" => DataType::Int32, "float32" => DataType::Float32,
+        "bool" => DataType::Bool, "string" => DataType::String, "r16" => DataType::RawBits(2), _ => DataType::UInt8 } };
+    let dims_of = |s: &str| -> Vec<u64> { if s == "-" { vec![] } else { pnl(s) } };
+    let grid_of = |s: &str| -> Option<zarrs::array::ChunkGrid> { let v: Vec<u64> = dims_of(s); zarrs::array::ChunkShape::try_from(v).ok().map(|c| zarrs::array::ChunkGrid::new(zarrs::array::chunk_grid::RegularChunkGrid::new(c))) };
+    let sep_of = |s: &str| if s == "." { zarrs::metadata::ChunkKeySeparator::Dot } else { zarrs::metadata::ChunkKeySeparator::Slash };
+    let aliases = zarrs::config::global_config().codec_aliases_v3().clone();
+    let codec_of = |s: &str| -> Option<Codec> {
+        let (name, cfg) = match s.split_once('~') { Some((n, c)) => (n.to_string(), Some(String::from_utf8(unhex(c)).unwrap())), None => (s.to_string(), None) };
+        let text = match cfg { Some(c) => format!("{{\"name\":{},\"configuration\":{}}}", jstr(&name), c), None => format!("{{\"name\":{}}}", jstr(&name)) };
+        let md: MetadataV3 = serde_json::from_str(&text).ok()?;
+        Codec::from_metadata(&md, &aliases).ok()
+    };
+    let grid = match grid_of(&m["grid"]) { Some(g) => g, None => return "bad-grid".into() };
+    let mut b = ArrayBuilder::new(dims_of(&m["shape"]), dt_of(&m["dt"]), grid, FillValue::new(unhex(&m["fill"])));
+    let ops = m.get("ops").cloned().unwrap_or_default();
+    if ops != "-" { for op in ops.split(';') {
+        let (k, v) = op.split_once(':').unwrap_or((op, ""));
+        match k {
+            "shape" => { b.shape(dims_of(v)); }
+            "dt" => { b.data_type(dt_of(v)); }
+            "grid" => { match grid_of(v) { Some(g) => { b.chunk_grid(g); } None => return "bad-grid".into() } }
+            "fill" => { b.fill_value(FillValue::new(unhex(v))); }
+            "cke" => { let (n, sp) = v.split_at(v.len() - 1);
+                if n == "v2" { b.chunk_key_encoding(zarrs::array::chunk_key_encoding::V2ChunkKeyEncoding::new(sep_of(sp)).into()); }
+                else { b.chunk_key_encoding(zarrs::array::chunk_key_encoding::DefaultChunkKeyEncoding::new(sep_of(sp)).into()); } }
+            "sep" => { b.chunk_key_encoding_default_separator(sep_of(v)); }
+            "a2a" => { let mut cs = vec![]; if v != "-" { for c in v.split(',') { match codec_of(c) { Some(Codec::ArrayToArray(x)) => cs.push(x), _ => return "bad-codec".into() } } } b.array_to_array_codecs_named(cs); }
+            "a2b" => { match codec_of(v) { Some(Codec::ArrayToBytes(x)) => { b.array_to_bytes_codec_named(x); } _ => return "bad-codec".into() } }
+            "b2b" => { let mut cs: Vec<zarrs::array::codec::NamedBytesToBytesCodec> = vec![]; if v != "-" { for c in v.split(',') {
+                if let Some(custom) = c.strip_prefix('!') { cs.push(zarrs::array::codec::NamedBytesToBytesCodec::new(custom.to_string(), std::sync::Arc::new(zarrs::array::codec::GzipCodec::new(1).unwrap()))); continue; }
+                match codec_of(c) { Some(Codec::BytesToBytes(x)) => cs.push(x.into()), _ => return "bad-codec".into() } } } b.bytes_to_bytes_codecs_named(cs); }
+            "attrs" => { b.attributes(serde_json::from_slice(&unhex(v)).unwrap()); }
+            "extra" => { b.additional_fields(serde_json::from_slice(&unhex(v)).unwrap()); }
+            "dims" => { if v == "none" { b.dimension_names(None::<Vec<zarrs::array::DimensionName>>); } else {
+                b.dimension_names(Some(v.split(',').map(|n| if n == "-" { zarrs::array::DimensionName::from(None::<String>) } else { zarrs::array::DimensionName::from(n) }).collect::<Vec<_>>())); } }
+            "st" => { b.storage_transformers(Default::default()); }
+            _ => return "bad-op".into(),
+        }
+    } }
+    let sc = make_store("memory");
+    let store: DynStore = sc.store.clone();
+    let a = match b.build(store.clone(), "/a") {
+        Ok(a) => a,
+        Err(ArrayCreateError::InvalidChunkGridDimensionality(..)) => return "err-grid".into(),
+        Err(ArrayCreateError::InvalidDimensionNames(..)) => return "err-dims".into(),
+        Err(ArrayCreateError::InvalidFillValue(..)) => return "err-fill".into(),
+        Err(e) => { if std::env::var("VERIF_ERR_MSG").is_ok() { eprintln!("ERR: {}", e); } return "err-other".into() }
+    };
+    let doc = match a.metadata() { ArrayMetadata::V3(md) => serde_json::to_string(md).unwrap(), _ => return "bad-version".into() };
+    // stored (without the `_zarrs` attribute) and re-opened
+    let opts = zarrs::array::ArrayMetadataOptions::default().with_include_zarrs_metadata(false);
+    let re = if a.store_metadata_opt(&opts).is_err() { "err-store".to_string() } else {
+        match Array::open(store.clone(), "/a") {
+            Ok(r) => match r.metadata() { ArrayMetadata::V3(md) => { let t = serde_json::to_string(md).unwrap(); if t == doc { "same".to_string() } else { hex(t.as_bytes()) } } _ => "bad-version".to_string() },
+            Err(_) => "rej".to_string(),
+        } };
+    // `array.builder().build()`
+    let rb = match a.builder().build(store.clone(), "/b") {
+        Ok(r) => match r.metadata() { ArrayMetadata::V3(md) => { let t = serde_json::to_string(md).unwrap(); if t == doc { "same".to_string() } else { hex(t.as_bytes()) } } _ => "bad-version".to_string() },
+        Err(_) => "err".to_string(),
+    };
+    format!("ok doc={} re={} rb={}", hex(doc.as_bytes()), re, rb)
+}
+
+/// `c13 gbuild ops=<attrs:<hex>;extra:<hex>;..|->`: `GroupBuilder` setters then `build`, the document, stored and re-opened
+fn exec_gbuild(m: &BTreeMap<String, String>) -> String {
+    let mut b = zarrs::group::GroupBuilder::new();
+    let ops = m.get("ops").cloned().unwrap_or_default();
+    if ops != "-" { for op in ops.split(';') {
+        let (k, v) = op.split_once(':').unwrap_or((op, ""));
+        match k {
+            "attrs" => { b.attributes(serde_json::from_slice(&unhex(v)).unwrap()); }
+            "extra" => { b.additional_fields(serde_json::from_slice(&unhex(v)).unwrap()); }
+            _ => return "bad-op".into(),
+        }
+    } }
+    let sc = make_store("memory");
+    let store: DynStore = sc.store.clone();
+    let g = match b.build(store.clone(), "/g") { Ok(g) => g, Err(_) => return "err".into() };
+    let doc = match g.metadata() { GroupMetadata::V3(md) => serde_json::to_string(md).unwrap(), _ => return "bad-version".into() };
+    let re = if g.store_metadata().is_err() { "err-store".to_string() } else {
+        match Group::open(store.clone(), "/g") {
+            Ok(r) => match r.metadata() { GroupMetadata::V3(md) => { let t = serde_json::to_string(md).unwrap(); if t == doc { "same".to_string() } else { hex(t.as_bytes()) } } _ => "bad-version".to_string() },
+            Err(_) => "rej".to_string(),
+        } };
+    format!("ok doc={} re={}", hex(doc.as_bytes()), re)
+}
+
+/// `c13 build` / `c13 gbuild` lines: random setter sequences
+fn generate_build(rng: &mut Rng, thorough: bool, out: &mut Vec<String>) {
+    let n = if thorough { 6000 } else { 600 };
+    let dts: [(&str, &[&str]); 7] = [("uint8", &["00", "07", "ff", "0000"]), ("int16", &["0000", "feff", "ff7f", "00"]), ("int32", &["00000000", "ffffffff", "0100"]),
+        ("float32", &["00000000", "0000c07f", "0000c03f", "00"]), ("bool", &["00", "01", "0000"]), ("string", &["", "6869", "61206220"]), ("r16", &["0001", "ffff", "00"])];
+    let dimsl = |rng: &mut Rng, rank: usize, lo: u64, hi: u64| -> String { if rank == 0 { "-".to_string() } else { (0..rank).map(|_| rng.range(lo, hi).to_string()).collect::<Vec<_>>().join(",") } };
+    let objs = ["{}", r#"{"a":1}"#, r#"{"z":"é","a":[1,2,null]}"#, r#"{"k":{"b":[true]},"_zarrs":1}"#];
+    let extras = ["{}", r#"{"ext":{"must_understand":false,"v":1}}"#, r#"{"zz":{"must_understand":false},"Aux":{"a":[1],"must_understand":false}}"#,
+        r#"{"needed":{"v":1}}"#, r#"{"b":1,"a":{"must_understand":false}}"#, r#"{"x":{"must_understand":true,"y":2}}"#];
+    for _ in 0..n {
+        let rank = rng.below(4) as usize;
+        let (dt, fills) = *rng.pick(&dts);
+        let fill = if rng.chance(1, 12) { fills[fills.len() - 1] } else { *rng.pick(&fills[..fills.len() - 1]) };
+        let grank = if rng.chance(1, 10) { (rank + 1) % 4 } else { rank };
+        let mut ops: Vec<String> = vec![];
+        for _ in 0..rng.below(7) {
+            ops.push(match rng.below(15) {
+                0 => { let r = if rng.chance(1, 5) { rng.below(4) as usize } else { rank }; format!("shape:{}", dimsl(rng, r, 0, 9)) }
+                1 => { let (d2, f2) = *rng.pick(&dts); if rng.chance(2, 3) { format!("dt:{};fill:{}", d2, f2[0]) } else { format!("dt:{}", d2) } }
+                2 => { let r = if rng.chance(1, 5) { rng.below(4) as usize } else { rank }; format!("grid:{}", dimsl(rng, r, 1, 4)) }
+                3 => format!("fill:{}", rng.pick(fills)),
+                4 => format!("cke:{}{}", rng.pick(&["default", "v2"]), rng.pick(&["/", "."])),
+                5 => format!("sep:{}", rng.pick(&["/", "."])),
+                6 => { let mut cs: Vec<String> = vec![];
+                    if rng.chance(1, 2) && rank > 0 { let mut order: Vec<usize> = (0..rank).collect(); for i in (1..rank).rev() { let j = rng.below(i as u64 + 1) as usize; order.swap(i, j); }
+                        cs.push(format!("transpose~{}", hex(format!("{{\"order\":[{}]}}", order.iter().map(|x| x.to_string()).collect::<Vec<_>>().join(",")).as_bytes()))); }
+                    if rng.chance(1, 3) { cs.push(rng.pick(&["squeeze", "zarrs.squeeze"]).to_string()); }
+                    if rng.chance(1, 3) { cs.push(format!("bitround~{}", hex(b"{\"keepbits\":3}"))); }
+                    format!("a2a:{}", if cs.is_empty() { "-".to_string() } else { cs.join(",") }) }
+                7 => format!("a2b:{}", match rng.below(6) { 0 => format!("bytes~{}", hex(b"{\"endian\":\"big\"}")), 1 => format!("bytes~{}", hex(b"{\"endian\":\"little\"}")), 2 => "bytes".to_string(),
+                    3 => format!("endian~{}", hex(b"{\"endian\":\"big\"}")), 4 => "vlen_v2".to_string(), _ => "packbits".to_string() }),
+                8 => { let mut cs: Vec<String> = vec![];
+                    for _ in 0..rng.below(3) { cs.push(match rng.below(6) { 0 => format!("gzip~{}", hex(format!("{{\"level\":{}}}", rng.range(0, 9)).as_bytes())), 1 => "crc32c".to_string(),
+                        2 => format!("zstd~{}", hex(b"{\"level\":1,\"checksum\":true}")), 3 => format!("numcodecs.zlib~{}", hex(b"{\"level\":2}")), 4 => format!("zlib~{}", hex(b"{\"level\":2}")),
+                        _ => if rng.chance(1, 3) { "!my_gzip".to_string() } else { "crc32c".to_string() } }); }
+                    format!("b2b:{}", if cs.is_empty() { "-".to_string() } else { cs.join(",") }) }
+                9 => format!("attrs:{}", hex(rng.pick(&objs).as_bytes())),
+                10 | 11 => format!("extra:{}", hex(rng.pick(&extras).as_bytes())),
+                12 | 13 => { if rng.chance(1, 5) { "dims:none".to_string() } else { let r = if rng.chance(1, 6) { (rank + 1) % 4 } else { rank };
+                    if r == 0 { "dims:none".to_string() } else { format!("dims:{}", (0..r).map(|_| rng.pick(&["y", "x", "-", "t0", "a_b"]).to_string()).collect::<Vec<_>>().join(",")) } } }
+                _ => "st".to_string(),
+            });
+        }
+        out.push(format!("c13 build dt={} shape={} grid={} fill={} ops={}", dt, dimsl(rng, rank, 0, 9), dimsl(rng, grank, 1, 4), if fill.is_empty() { "-".to_string() } else { fill.to_string() },
+            if ops.is_empty() { "-".to_string() } else { ops.join(";") }));
+    }
+    for _ in 0..n / 6 {
+        let mut ops: Vec<String> = vec![];
+        for _ in 0..rng.below(4) { ops.push(if rng.chance(1, 2) { format!("attrs:{}", hex(rng.pick(&objs).as_bytes())) } else { format!("extra:{}", hex(rng.pick(&extras).as_bytes())) }); }
+        out.push(format!("c13 gbuild ops={}", if ops.is_empty() { "-".to_string() } else { ops.join(";") }));
+    }
+}
+
 pub fn generate(tier: &str, seed: u64) -> Vec<String> {
     let thorough = tier == "thorough";
     let mut rng = Rng::new(seed ^ 0xC13);
@@ -908,33 +1248,7 @@ pub fn generate(tier: &str, seed: u64) -> Vec<String> {
     }
     // hierarchies
     let nh = if thorough { 3000 } else { 300 };
-    for h in 0..nh {
-        let kind = match h % 5 { 0 => "fs", 1 => "os_mem", 2 => "od_mem", _ => "memory" };
-        out.push(format!("c13 cfg store={}", kind));
-        let names = ["a", "b", "c", "g1", "__x", "zarr", "x.y", "t__2m"];
-        let mut paths: Vec<String> = vec!["/".to_string()];
-        let nops = rng.range(4, if thorough { 40 } else { 20 });
-        for _ in 0..nops {
-            let sel = rng.below(20);
-            let parent = rng.pick(&paths).clone();
-            let child = if parent == "/" { format!("/{}", rng.pick(&names)) } else { format!("{}/{}", parent, rng.pick(&names)) };
-            match sel {
-                0..=5 => { let p = if rng.chance(1, 6) { "/".to_string() } else { child.clone() }; out.push(format!("c13 op mkgroup p={} v={}", p, if rng.chance(1, 4) { 2 } else { 3 })); if !paths.contains(&p) && p.matches('/').count() < 4 { paths.push(p); } }
-                6..=8 => { out.push(format!("c13 op mkarray p={} v={}", child, if rng.chance(1, 4) { 2 } else { 3 })); }
-                9 => { out.push(format!("c13 op rmmeta p={}", rng.pick(&paths))); }
-                10 => { let p = rng.pick(&paths).clone(); if p != "/" { out.push(format!("c13 op rmnode p={}", p)); } }
-                11 => { out.push(format!("c13 op stray k={}/{}", child.trim_start_matches('/'), rng.pick(&["data.bin", "x/y", "s/0/0"]))); }
-                12 => { out.push(format!("c13 op children p={} rec={}", rng.pick(&paths), rng.below(2))); }
-                13 => { out.push(format!("c13 op paths p={}", rng.pick(&paths))); }
-                14 => { out.push(format!("c13 op objs p={}", rng.pick(&paths))); }
-                15 => { out.push(format!("c13 op exists p={}", if rng.chance(1, 2) { child } else { parent })); }
-                _ => { out.push(format!("c13 op tree p={}", rng.pick(&paths))); }
-            }
-        }
-        out.push("c13 op keys".into());
-        for p in &paths { out.push(format!("c13 op children p={} rec=1", p)); out.push(format!("c13 op paths p={}", p)); out.push(format!("c13 op objs p={}", p)); }
-        out.push("c13 op tree p=/".into());
-    }
+    for h in 0..nh { gen_hier_block(&mut rng, thorough, h, None, &mut out); }
     // V2 documents and the V2 -> V3 conversion against the model (own stream: the lines above stay as they were)
     let mut rng2 = Rng::new(seed ^ 0xC13_0002);
     generate_v2(&mut rng2, if thorough { 12000 } else { 1500 }, &mut out);
@@ -974,5 +1288,11 @@ pub fn generate(tier: &str, seed: u64) -> Vec<String> {
     // the metadata options against the model (own stream: the lines above stay as they were)
     let mut r4 = Rng::new(seed ^ 0xC13_0B7);
     generate_mopt(&mut r4, if thorough { 12000 } else { 1400 }, &mut out);
+    // consolidated metadata against the model (own stream: the lines above stay as they were)
+    let mut r5 = Rng::new(seed ^ 0xC13_0C5);
+    generate_cons(&mut r5, thorough, &mut out);
+    // the builders against the model (own stream)
+    let mut r6 = Rng::new(seed ^ 0xC13_0B1D);
+    generate_build(&mut r6, thorough, &mut out);
     out
 }
